@@ -464,7 +464,7 @@ def gen_malformed(ctx):
 
 def gen_displ(ctx):
     rng = ctx.rng
-    for i in range(ctx.n(800, 12000)):
+    for i in range(ctx.n(2500, 12000)):
         k = rng.random()
         n = rng.randint(2, 12)
         if k < 0.5:
@@ -508,6 +508,29 @@ def gen_displ(ctx):
         elif r < 0.27:
             a = n + rng.randint(0, 2)
             cls = "missing-key"
+        elif r < 0.37 and len(table[a]) >= 3:
+            # three or more neighbours whose cross product is SMALL but not degenerate: the same geometry in
+            # other length units (coordinates x 1e-4 … 1e-2), or a flat triangle with the third neighbour
+            # 10^-4 … 10^-6 off the line of the first two.  Perpendicularity has no absolute scale
+            # (seed C07-8: `norm(cross) < 1e-6` taken for "collinear")
+            if rng.random() < 0.5:
+                f = 10 ** -rng.uniform(2.0, 4.0)
+                pos = [[c * f for c in p] for p in pos]
+                table = {u: [[v, b * f] for v, b in lst] for u, lst in table.items()} if isinstance(table, dict) \
+                    else [[[v, b * f] for v, b in lst] for lst in table]
+                cls = "small-length-unit"
+            else:
+                k0, k1, k2 = (table[a][j][0] for j in range(3))
+                d = [pos[k1][j] - pos[k0][j] for j in range(3)]
+                L = math.sqrt(sum(c * c for c in d)) or 1.0
+                e = [rng.gauss(0, 1) for _ in range(3)]
+                dot = sum(e[j] * d[j] for j in range(3)) / (L * L)
+                e = [e[j] - dot * d[j] for j in range(3)]
+                le = math.sqrt(sum(c * c for c in e)) or 1.0
+                off = 10 ** -rng.uniform(4.0, 6.0)
+                t = rng.uniform(0.3, 1.7)
+                pos[k2] = [pos[k0][j] + t * d[j] + off * e[j] / le for j in range(3)]
+                cls = "flat-triangle"
         ss = rng.choice([0.5, 0.5, 1.0, 0.1, 2.0, rng.uniform(0.01, 3.0)])
         if cls == "generic" and rng.random() < 0.04:
             ss = -ss
